@@ -1,0 +1,41 @@
+//go:build verif
+
+// Contracts for the deductive verifier in /verif (govc), helper "gen" (C18, x/evm part): the layout of the persistent
+// x/evm store. Comment-only.
+package types
+
+//@ import common "github.com/ethereum/go-ethereum/common"
+
+// key.go — the four record kinds of the persistent evm store that genesis export / import deals with. The x/evm VIEW of a
+// store layer is the content of the module store (kvHas / kvVal of prelude/42_cpc_store.spec) under these keys:
+//     code            [1] ++ code hash (32 bytes)              -> contract byte code
+//     storage         [2] ++ address (20 bytes) ++ slot key     -> slot value (32 bytes; a zero value is never stored)
+//     params          [3]                                       -> protobuf Params record
+//     code-hash index [4] ++ address (20 bytes)                 -> code hash (32 bytes; the empty code hash is never stored)
+// (prefixCode = iota + 1, prefixStorage, prefixParams, prefixCodeHash: key.go lines 26-31.)
+//@ ghost func evmCodeKeyB(h common.Hash) bytes = bcat(b1(1), hashBytes(h))
+//@ ghost func evmStoragePrefixB(a common.Address) bytes = bcat(b1(2), addrBytes(a))
+//@ ghost func evmStateKeyB(a common.Address, k common.Hash) bytes = bcat(bcat(b1(2), addrBytes(a)), hashBytes(k))
+//@ ghost func evmCodeHashKeyB(a common.Address) bytes = bcat(b1(4), addrBytes(a))
+
+// Package-level key prefixes hold the values their initialisers give them (T4: package-level variables are not modified
+// after init; one-byte literals, so len == cap == 1: appending to a prefix allocates, never writes the shared array).
+//@ axiom evm_gen_key_prefixes: len(KeyPrefixCode) == 1 && cap(KeyPrefixCode) == 1 && KeyPrefixCode[0] == 1 && len(KeyPrefixStorage) == 1 && cap(KeyPrefixStorage) == 1 && KeyPrefixStorage[0] == 2 && len(KeyPrefixParams) == 1 && cap(KeyPrefixParams) == 1 && KeyPrefixParams[0] == 3 && len(KeyPrefixCodeHash) == 1 && cap(KeyPrefixCodeHash) == 1 && KeyPrefixCodeHash[0] == 4
+
+//@ func AddressStoragePrefix(address common.Address) []byte
+//@   modifies nothing
+//@   ensures[C18.evm_storage_prefix_layout] bytes(result) == evmStoragePrefixB(address) && len(result) == 21 && fresh(base(result))
+//@   panics never
+
+// The code-hash index as the ordered prefix iterator enumerates it (prelude/48_cpc2_iterator.spec): entry i of the index
+// is the i-th key under prefix [4]; its address is what common.BytesToAddress makes of the key (the last 20 bytes), its
+// code hash what common.BytesToHash makes of the value. An entry is EXPORTED when its code hash is not empty;
+// evmExpCount(has, val, n) = the number of exported entries among the first n (uninterpreted, two defining axioms).
+//@ ghost func evmIdxAddr(has map[bytes]bool, i int) common.Address = bytesToAddr(kvSeqKey(has, b1(4), i))
+//@ ghost func evmIdxHash(has map[bytes]bool, val map[bytes]bytes, i int) common.Hash = hashOfBytes(val[kvSeqKey(has, b1(4), i)])
+//@ ghost func evmIdxExported(has map[bytes]bool, val map[bytes]bytes, i int) bool = !isEmptyCodeHash(hashOfBytes(val[kvSeqKey(has, b1(4), i)]))
+//@ ghost func evmExpCount(has map[bytes]bool, val map[bytes]bytes, n int) int
+//@ axiom[C18] evm_exp_count_zero: forall has map[bytes]bool, val map[bytes]bytes :: {evmExpCount(has, val, 0)} evmExpCount(has, val, 0) == 0
+//@ axiom[C18] evm_exp_count_step: forall has map[bytes]bool, val map[bytes]bytes, n int :: {evmExpCount(has, val, n + 1)} n >= 0 ==> evmExpCount(has, val, n + 1) == evmExpCount(has, val, n) + (evmIdxExported(has, val, n) ? 1 : 0)
+// the byte code stored under a code hash (no record: empty)
+//@ ghost func evmCodeOf(has map[bytes]bool, val map[bytes]bytes, h common.Hash) bytes = has[evmCodeKeyB(h)] ? val[evmCodeKeyB(h)] : bempty()
